@@ -103,6 +103,7 @@ func GenOps(r *vh.Rand, n, m int, crash bool) []string {
 		return "ok"
 	}
 	var ops []string
+	planted := false
 	for i := 0; i < m; i++ {
 		var op string
 		x := r.Intn(100)
@@ -112,6 +113,7 @@ func GenOps(r *vh.Rand, n, m int, crash bool) []string {
 				c, md = pinnedOr(guessD, 1, 1), 1
 			}
 			ops = append(ops, fmt.Sprintf("plant %d %d", c, md))
+			planted = true
 			if r.Bool() { // and hit it at once
 				ops = append(ops, vh.Pick(r, []string{
 					fmt.Sprintf("crashall unpin %d 1 ok", c),
@@ -222,7 +224,9 @@ func GenOps(r *vh.Rand, n, m int, crash bool) []string {
 		if crash {
 			if r.Chance(1, 8) {
 				op = fmt.Sprintf("crash2 %d %d %s", r.Intn(9), r.Intn(5), op)
-			} else if r.Chance(1, 6) {
+			} else if r.Chance(1, 6) && !planted {
+				// (stepIO is derived from the undisturbed log; with the mid-call flush of the repair
+				// branch a failed flag write changes which later flag writes happen)
 				op = fmt.Sprintf("io %d %s", r.Intn(9), op)
 			} else if r.Chance(1, 4) {
 				op = fmt.Sprintf("crashat %d %s", r.Intn(9), op)
